@@ -39,6 +39,10 @@ func Substr[T ~string](str T, offset, length int) T {
 			return Null[T]()
 		}
 		end = newLength
+	} else if length > len(str)-offset {
+		// The selection runs to the end of the string. Testing it this way
+		// also covers offset+length overflowing, e.g. a length of math.MaxInt.
+		end = len(str)
 	} else {
 		end = offset + length
 	}
